@@ -352,6 +352,14 @@ func loadKnown(path string) []Known {
 		if l == "" || strings.HasPrefix(l, "#") {
 			continue
 		}
+		if strings.HasPrefix(l, "fixed:") {
+			// "fixed: property=<id> <commit> <what failed>": a repaired defect; suppresses nothing
+			f := strings.Fields(l)
+			if len(f) >= 3 {
+				out = append(out, Known{Status: "fixed", Property: strings.TrimPrefix(f[1], "property="), Commit: f[2], What: strings.Join(f[3:], " ")})
+			}
+			continue
+		}
 		var k Known
 		if err := json.Unmarshal([]byte(l), &k); err != nil {
 			infra("known_findings.jsonl: %v", err)
@@ -476,6 +484,15 @@ func (c *Ctx) Report(o Oracle, cands map[string][]candidate) int {
 		if k := c.openKnown(sig); k != nil {
 			knownSeen[sig] = true
 			c.Stats.Add("known_finding_hits", len(list))
+			if os.Getenv("VERIF_WITNESS") != "" && k.Witness != "" {
+				// maintenance aid: (re)create the committed witness of a listed finding
+				cs, f := c.Minimise(o, w, list[0].cs, list[0].f)
+				rf := ReplayFile{Property: c.Prop, Signature: f.Sig, What: f.What, VerifSeed: c.Seed, Tree: c.Tree, Confirm: "witness of a known finding", Case: *cs}
+				b, _ := json.MarshalIndent(rf, "", " ")
+				os.MkdirAll(filepath.Dir(filepath.Join(c.Verif, k.Witness)), 0755)
+				os.WriteFile(filepath.Join(c.Verif, k.Witness), b, 0644)
+				fmt.Printf("NOTE: wrote witness %s\n", k.Witness)
+			}
 			continue
 		}
 		if violations >= 8 {
@@ -513,6 +530,9 @@ func (c *Ctx) Report(o Oracle, cands map[string][]candidate) int {
 		if !still && k.Witness != "" {
 			rf, err := loadReplay(filepath.Join(c.Verif, k.Witness))
 			if err != nil {
+				if os.Getenv("VERIF_WITNESS") != "" {
+					continue
+				}
 				infra("known finding witness %s: %v", k.Witness, err)
 			}
 			if f := o.Judge(c, w, &rf.Case); f != nil && f.Sig == k.Sig {
